@@ -28,6 +28,8 @@ BIG_FULL = "\n".join(("+--+ %04d text here" % i) + "\n|  | .-. \n+--+ '-' " for 
 # conversion time is quadratic in the body size (20 kB: 1.5 s): the quick tier uses a 6 kB body, the thorough tier the full 20 kB
 BIG = BIG_FULL[:6000] if (len(sys.argv) > 2 and sys.argv[2] == "quick") else BIG_FULL
 CJK = "┌──┐ 一二三\n│é │\n└──┘"
+# dense non-ASCII body larger than the server's read buffer (multi-byte characters straddle every internal boundary)
+DENSE = ("┌" + "─" * 60 + "┐ 一二三四五六七八九十\n") * 40
 # a valid body of exactly the framework's limit (2 MiB): a small drawing padded with blanks
 LIMIT = 2 * 1024 * 1024
 ATLIMIT = "+--+\n|ok|\n+--+\n" + " " * (LIMIT - 15)
@@ -74,6 +76,7 @@ def kinds(docs):
         "post-hostile": (post(HOSTILE.encode()), HOSTILE.encode(), 200, docs[HOSTILE]),
         "post-20k": (post(BIG.encode()), BIG.encode(), 200, docs[BIG]),
         "post-cjk": (post(CJK.encode()), CJK.encode(), 200, docs[CJK]),
+        "post-dense-unicode": (post(DENSE.encode()), DENSE.encode(), 200, docs[DENSE]),
         "post-bad-utf8": (post(b"+-\xff\xfe-+"), b"+-\xff\xfe-+", 400, None),
         "post-too-big": (post(big_body), big_body, 413, None),
         "post-at-limit": (post(ATLIMIT.encode()), ATLIMIT.encode(), 200, docs[ATLIMIT]),
@@ -235,6 +238,16 @@ def run_sequence(seq, K, server=None):
 EVENTS = ["connect", "head", "body1", "body2", "recv"]
 
 
+def split_point(body):
+    """the byte offset where the body is cut in two: inside a multi-byte character near the middle when there is one"""
+    mid = len(body) // 2
+    for d in range(0, min(len(body) // 2, 16)):
+        for i in (mid + d, mid - d):
+            if 0 < i < len(body) and (body[i] & 0xC0) == 0x80:
+                return i
+    return mid
+
+
 def run_interleaving(kinds_, order, K, server):
     """order: sequence of client indices; the j-th occurrence of client i performs its j-th event"""
     n = len(kinds_)
@@ -252,9 +265,10 @@ def run_interleaving(kinds_, order, K, server):
             elif ev == "head":
                 send_all(socks[ci], head)
             elif ev == "body1":
-                send_all(socks[ci], body[: len(body) // 2])
+                send_all(socks[ci], body[: split_point(body)])
+                time.sleep(0.002)  # let the first half arrive as a segment of its own
             elif ev == "body2":
-                send_all(socks[ci], body[len(body) // 2:])
+                send_all(socks[ci], body[split_point(body):])
             else:
                 if want_status == "abandon":
                     # the client walks away in the middle of its body
@@ -289,8 +303,8 @@ def interleavings(n_clients, n_events):
 def main():
     mode = sys.argv[1]
     build_binaries()
-    docs = library_docs([SMALL, "", HOSTILE, BIG, CJK, ATLIMIT])
-    if any(v is None for v in docs.values()) or len(docs) != 6:
+    docs = library_docs([SMALL, "", HOSTILE, BIG, CJK, ATLIMIT, DENSE])
+    if any(v is None for v in docs.values()) or len(docs) != 7:
         print("MACHINERY-ERROR: cannot obtain the library's documents")
         sys.exit(2)
     K = kinds(docs)
@@ -313,7 +327,7 @@ def main():
     seed = int(os.environ.get("VERIF_SEED", "0") or 0)
     t0 = time.time()
     names = list(K)
-    cheap = [k for k in names if k not in ("post-too-big", "post-20k", "post-at-limit")]
+    cheap = [k for k in names if k not in ("post-too-big", "post-20k", "post-at-limit", "post-dense-unicode")]
     # (a) sequences
     fresh = [(k,) for k in names] + [p for p in itertools.product(names, repeat=2)]
     chained = list(itertools.product(cheap, repeat=3))
@@ -348,7 +362,7 @@ def main():
             results.extend(out)
     # (b) interleavings of client events
     pairs = [("post-small", "post-hostile"), ("post-small", "get"), ("post-bad-utf8", "post-small"), ("post-small", "post-small"),
-             ("abandon", "post-small"), ("garbage", "post-cjk"), ("put", "post-empty"), ("post-20k", "post-small"), ("post-too-big", "post-small")]
+             ("abandon", "post-small"), ("garbage", "post-cjk"), ("post-cjk", "post-cjk"), ("put", "post-empty"), ("post-20k", "post-small"), ("post-too-big", "post-small")]
     orders2 = interleavings(2, 5)
     jobs = [(list(p), list(o)) for p in pairs for o in orders2]
     if tier == "thorough":
@@ -397,7 +411,7 @@ def main():
             "states": len(results), "transitions": requests, "traces_validated_against_impl": requests,
             "samples": samples, "evaluations": len(results), "distinct_nontrivial": len(outcomes),
             "rule": "(a) every sequence of up to 2 (thorough 3) requests over 12 request kinds on a fresh server, and every sequence of 3 (thorough 4 over 7 state-relevant kinds) chained on long-lived servers, each followed by a probe GET; "
-                    "(b) for 9 pairs (thorough also 3 triples) of request kinds every interleaving of the clients' events connect / send head / send first body half / send second half / receive (252 orders for two clients; 34650 for three clients with 4 events), performed deterministically on raw sockets. "
+                    "(b) for 10 pairs (thorough also 3 triples) of request kinds every interleaving of the clients' events connect / send head / send first body half (cut inside a multi-byte character when there is one) / send second half / receive (252 orders for two clients; 34650 for three clients with 4 events), performed deterministically on raw sockets. "
                     "Every response is compared with the per-request model (200 + the library's to_svg document, 400, 413, 405, 404, version string). distinct_nontrivial = distinct request sequences / kind tuples",
             "exhaustive": True,
             "scopes": [{"scope": "sequences", "size": nseq, "completed": nseq, "exhaustive": True},
